@@ -69,3 +69,80 @@ Definition chk_info (c : nat * nat * bool * nat) : bool :=
   let '(h, m, same_key, observed) := c in
   let t := opaque_token (if same_key then 0 else m) (PS "n") (PS "rnd") (tk_of m) (PS "sid") (PS "99") in
   Nat.eqb (out_code (opaque_info (if same_key then 0 else h) (tk_of h) t)) observed.
+
+(* ---- SLOTS: the places where an endpoint takes a token value, and the handler it asks ----
+   A provider has one handler per class slot (opaque with its Fernet key, or JWT with its signing key) and an
+   ID Token handler.  SessionManager.get_session_info_by_token(value, handler_key=K) asks handler K only;
+   without handler_key it goes through TokenHandler.get_handler: the handlers in handler_order, first that
+   does not raise.  The slots:
+     SCode      token endpoint, `code`                       handler_key = authorization_code
+     SRefresh   token endpoint, `refresh_token`              handler_key = refresh_token
+     SUserinfo  userinfo, the bearer token that is the request's subject      handler_key = access_token
+     SBearer    `Authorization: Bearer` / body `access_token` offered as the CLIENT'S CREDENTIAL (client
+                authentication methods bearer_header / bearer_body, endpoint.get_client_id_from_token)
+                                                             handler_key = access_token
+     SGeneric   the `token` parameter of introspection / revocation: class-agnostic lookup *)
+Inductive hspec := HOpaque (k : nat) | HJwt (k : nat).
+Record hconf := mkHconf { h_code : hspec; h_access : hspec; h_refresh : hspec; h_idt : nat }.
+Definition h_of (cfg : hconf) (c : tk) : hspec :=
+  match c with KCode => h_code cfg | KAccess => h_access cfg | KRefresh => h_refresh cfg end.
+Inductive mclass := MTok (c : tk) | MIdToken.
+(* what the provider mints in class m for session sid *)
+Definition mint (cfg : hconf) (m : mclass) (nonce rnd sid exp : pystr) : term :=
+  match m with
+  | MTok c => match h_of cfg c with
+              | HOpaque k => opaque_token k nonce rnd c sid exp
+              | HJwt k => jwt_token k (Some (tk_name c)) (Some sid) exp
+              end
+  | MIdToken => jwt_token (h_idt cfg) None (Some sid) exp
+  end.
+Definition handler_info (cfg : hconf) (expired : pystr -> bool) (h : tk) (t : term) : tres (option pystr) :=
+  match h_of cfg h with HOpaque k => opaque_info k h t | HJwt k => jwt_info k h expired t end.
+(* IDToken.info: signature and expiry, NO class check; the session id if the payload has one *)
+Definition idt_info (pubk : nat) (expired : pystr -> bool) (t : term) : tres (option pystr) :=
+  match sig_verify pubk t with
+  | Some (Pair _ (Pair s (Atom exp))) =>
+      if expired exp then TErr ETooOld else TOk (match s with Pair (Atom _) (Atom sid) => Some sid | _ => None end)
+  | _ => TErr EUnknownToken
+  end.
+Definition is_ok {A} (r : tres A) : bool := match r with TOk _ => true | TErr _ => false end.
+(* TokenHandler.get_handler with handler_order = [authorization_code, access_token, refresh_token, id_token] *)
+Definition generic_info (cfg : hconf) (expired : pystr -> bool) (t : term) : tres (option pystr) :=
+  if is_ok (handler_info cfg expired KCode t) then handler_info cfg expired KCode t
+  else if is_ok (handler_info cfg expired KAccess t) then handler_info cfg expired KAccess t
+  else if is_ok (handler_info cfg expired KRefresh t) then handler_info cfg expired KRefresh t
+  else if is_ok (idt_info (h_idt cfg) expired t) then idt_info (h_idt cfg) expired t
+  else TErr EUnknownToken.
+
+Inductive slot := SCode | SRefresh | SUserinfo | SBearer | SGeneric.
+Definition slot_handler (s : slot) : option tk :=
+  match s with SCode => Some KCode | SRefresh => Some KRefresh | SUserinfo => Some KAccess | SBearer => Some KAccess
+             | SGeneric => None end.
+Definition slot_resolve (cfg : hconf) (expired : pystr -> bool) (s : slot) (t : term) : tres (option pystr) :=
+  match slot_handler s with Some h => handler_info cfg expired h t | None => generic_info cfg expired t end.
+(* the session a value resolves to at a slot: get_session_info_by_token raises WrongTokenClass without a sid,
+   get_session_info raises for a session id the database does not hold.  db: session id -> client id *)
+Definition slot_client (cfg : hconf) (expired : pystr -> bool) (db : list (pystr * pystr)) (s : slot) (t : term) : option pystr :=
+  match slot_resolve cfg expired s t with
+  | TOk (Some sid) => assoc sid db
+  | _ => None
+  end.
+
+(* correspondence: a provider configuration of the harness, a genuine token of class m of this provider
+   (foreign = false) or of a second instance, offered at a slot; observed = the client the real provider
+   resolved / authenticated, if any.
+   kinds: per class slot 0 = opaque, 1 = JWT; distinct: the opaque handlers have a key each;
+   idt_own_key: ID Tokens are signed with another key than JWT access tokens (another algorithm);
+   foreign_keys: the other instance has other opaque keys (the signing keys come from one key file) *)
+Definition cfg_of (kc ka kr : nat) (distinct idt_own_key : bool) (off : nat) : hconf :=
+  let hs (n i : nat) := match n with O => HOpaque (off + (if distinct then i else 0)) | _ => HJwt 50 end in
+  mkHconf (hs kc 0%nat) (hs ka 1%nat) (hs kr 2%nat) (if idt_own_key then 51%nat else 50%nat).
+Definition mclass_of (n : nat) : mclass := match n with 3%nat => MIdToken | _ => MTok (tk_of n) end.
+Definition slot_of (n : nat) : slot := match n with 0%nat => SCode | 1%nat => SRefresh | 2%nat => SUserinfo | 3%nat => SBearer | _ => SGeneric end.
+Definition chk_slot (c : (nat * nat * nat * bool * bool) * (nat * bool * bool) * nat * pystr * option pystr) : bool :=
+  let '((kc, ka, kr, distinct, idt_own_key), (m, foreign, foreign_keys), s, client, observed) := c in
+  let cfg := cfg_of kc ka kr distinct idt_own_key 0%nat in
+  let cfg' := if foreign then cfg_of kc ka kr distinct idt_own_key (if foreign_keys then 100%nat else 0%nat) else cfg in
+  let sid := if foreign then PS "sid of the other instance" else PS "sid" in
+  let t := mint cfg' (mclass_of m) (PS "n") (PS "rnd") sid (PS "99") in
+  option_eqb str_eqb (slot_client cfg (fun _ => false) [(PS "sid", client)] (slot_of s) t) observed.
